@@ -678,7 +678,12 @@ impl<'a> Writer<'a> {
             if i == label_pos {
                 let mut s = [0u8; 32];
                 s[..11].copy_from_slice(label.unwrap());
-                s[11] = 0x08;
+                // other writers store the label with the archive bit and a modification time (attribute 0x28)
+                s[11] = if fr.label_anywhere && pool.chance(50) { 0x28 } else { 0x08 };
+                if s[11] == 0x28 {
+                    s[22..24].copy_from_slice(&0x6000u16.to_le_bytes());
+                    s[24..26].copy_from_slice(&0x5021u16.to_le_bytes());
+                }
                 slots.push(s);
             }
             let base = slots.len();
